@@ -77,28 +77,41 @@ CLAIMED = {
             "independent exact oracle on the implementation's outputs.",
             "Lean 4 proof over ordered fields + exact (Fraction vs Rat) differential correspondence, exhaustive grid",
             "DESIGN.md §4 C03"),
-    "C04": ("Sentence 3 (a step over the limit is never reported as valid; the run stops there and is flagged) and the "
-            "form of the reported connector power are Lean theorems about a model of Scenario.run's loop in which the "
-            "strategy's effect is an arbitrary input, so they hold for all eight strategies; the loop model is run on the "
-            "recorded world states of real runs and compared bit-for-bit with the real totals/abort flag. Sentences 1-2 "
-            "(limit = min(rating, latest signal); no strategy breaks it) are decided per run by an independent oracle on "
-            "the real outputs of all strategies; genuine defects of five strategies are listed in known_findings.json.",
-            "Lean 4 proof (parametric run-loop monitor) + Float differential correspondence on recorded real runs + oracle on real runs",
-            "DESIGN.md §4 C04"),
-    "C05": ("Station monitor for every strategy and the clamp_power laws (non-negative, <= offered, keeps the station "
-            "within its maximum, minimum-power cut-off, monotone) are Lean theorems; clamp_power is compared exactly "
-            "(exhaustive rational grid) and the loop model bit-for-bit on recorded real runs. The strategy-specific "
-            "sentences (station maximum, vehicle curve, only connected stations, no discharge without V2G) are decided by "
-            "an oracle on real runs of all strategies; genuine defects are listed in known_findings.json.",
-            "Lean 4 proof (monitor + clamp laws) + exact/Float differential correspondence + oracle on real runs",
-            "DESIGN.md §4 C05"),
+    "C04": ("Lean theorems: (1) run-loop monitor with the strategy's effect as an arbitrary input - a step over the limit is "
+            "never reported as valid, the run stops there and is flagged - for all eight strategies; (2) on the "
+            "statement-by-statement models of all eight strategy classes, the whole step keeps every connector within its "
+            "currently valid limit: greedy/balanced (both sides, with battery support), distributed (limits restored), "
+            "schedule, flex_window (balanced unconditional; greedy; needy in exact arithmetic), peak_shaving, "
+            "peak_load_window, balanced_market; theorems named _partial state exactly what they exclude (V2G for "
+            "balanced_market and the feed-in side of schedule-collective, surplus with batteries for peak_load_window, "
+            "exact-delivery battery contracts). The loop model and every strategy model are compared bit-for-bit with the "
+            "real code on every step of generated real runs inside this check. Limit = min(rating, latest signal) and "
+            "the run-level sentence are additionally decided by an independent oracle on the real outputs; one narrow "
+            "finding is left (peak_load_window at negative SoC). 16 genuine strategy defects were repaired in /repo.",
+            "Lean 4 proof (run-loop monitor + whole-step limit theorems on 8 strategy models) + bit-level Float correspondence of loop and strategy steps on real runs + oracle on real runs",
+            "DESIGN.md I.4, §4 C04"),
+    "C05": ("Lean theorems: station monitor for every strategy; clamp_power laws (non-negative, <= offered, keeps the "
+            "station within its maximum, minimum-power cut-off, monotone); on the strategy models the whole step keeps "
+            "every station within its (concurrency-scaled) maximum in both directions, only stations with a connected "
+            "vehicle carry power and nothing is discharged without V2G (greedy/balanced, flex_window balanced, "
+            "peak_shaving, peak_load_window, balanced_market, schedule individual; collective without V2G). clamp_power "
+            "is compared exactly (exhaustive rational grid), loop and strategy steps bit-for-bit on real runs. The "
+            "vehicle-curve sentence is decided by the oracle from the battery-operation trace: six strategies load a "
+            "battery several times per step (known findings keyed by that mechanism; proved impossible for "
+            "peak_load_window and schedule-individual).",
+            "Lean 4 proof (monitor, clamp laws, whole-step station theorems on the strategy models) + exact/bit-level correspondence + operation-trace oracle on real runs",
+            "DESIGN.md I.4, §4 C05"),
     "C06": ("Reported connector power = curtailed sum of its loads (every strategy) and the self-discharge step (formula, "
-            "only lowers, never below zero) are Lean theorems; apply_battery_losses is compared exactly on a rational grid "
-            "and the loop model bit-for-bit on recorded real runs. The per-step energy bookkeeping of vehicles and "
-            "batteries (dSoC = P*dt*eta/c resp. /eta) is decided by a trace oracle on real runs of all strategies; the "
-            "battery-level identity it rests on is C01.",
-            "Lean 4 proof (sum identity, losses) + exact/Float differential correspondence + trace oracle on real runs",
-            "DESIGN.md §4 C06"),
+            "only lowers, never below zero) are Lean theorems; on the strategy models: schedule-individual changes every "
+            "vehicle's energy by exactly command x T x eta and books signed battery power, peak_shaving changes the world "
+            "only through booked charges (look-ahead simulations leave no trace), flex_window's station entries equal the "
+            "station powers. apply_battery_losses is compared exactly on a rational grid, loop and strategy steps "
+            "bit-for-bit on real runs. For the other strategies the per-step energy bookkeeping of vehicles and batteries "
+            "is decided by an oracle that reconstructs the chain of battery operations of the step from the run-time "
+            "trace (every operation: dSoC = P*dt*eta/c resp. /eta; booked station power = signed sum; commands name every "
+            "station that carries power); the battery-level identity it rests on is C01.",
+            "Lean 4 proof (sum identity, losses, booking theorems on three strategy models) + exact/bit-level correspondence + operation-chain oracle on real runs",
+            "DESIGN.md I.4, §4 C06"),
     "C07": ("Bucket index = max 0 ceil((signal-start)/dt) with 'kept iff < n', the step at which each event takes "
             "effect (first step at/after its start and not before it was signalled; exactly once), the value in force = "
             "last applied event in (start, arrival) order, series tail = 0, chronological application of past events at "
@@ -117,15 +130,335 @@ CLAIMED = {
             "Scenario.run on bounded-exhaustive vehicle-event sequences x option combinations x margins.",
             "Lean 4 proof (induction over event histories) + exact differential correspondence, bounded-exhaustive",
             "DESIGN.md §4 C08"),
-    "C09": ("For the two modelled strategies: balanced's plan is a constant power that reaches the desired SoC exactly at "
-            "the announced departure when every planned power is accepted (constant curve, admissible power), with the "
-            "remaining-steps count proved to be the ceiling of the remaining time; greedy offers min(needed, available) "
-            "clamped. These are Lean theorems on the strategy model. For all six listed strategies the guarantee itself is "
-            "decided on real runs: scenarios whose standing time is f x the full-power charging time (f = 1..2), SoC read at "
-            "the departure step from the run-time trace; greedy is compared with the full-power trajectory. Known "
-            "findings: balanced / distributed / balanced_market miss on curves that vary between SoC and desired SoC (F2).",
-            "Lean 4 proof (balanced recurrence, ceiling of remaining steps) on the strategy model + oracle on real runs of six strategies",
-            "DESIGN.md §4 C09"),
+    "C09": ("Lean theorems on the strategy models: balanced's plan is a constant power that reaches the desired SoC exactly "
+            "at the announced departure (remaining steps = ceiling of the remaining time); greedy offers min(needed, "
+            "available) clamped; balanced_market plans every step before departure, uses a planned present step "
+            "(regression of repaired defect BM1) and plans in time order when prices never fall; peak_load_window's even "
+            "plan reaches the desired SoC on a constant curve; flex_window offers the whole headroom in a window that does "
+            "not suffice. The run-level guarantee for all six listed strategies is decided on real runs (standing time f x "
+            "full-power time, varying headroom, shared binding connector, V2G vehicle above its desired SoC; SoC read at "
+            "the departure step), with the step models tied bit-for-bit on the same runs. Known findings with their "
+            "mechanism: F2 (varying curves: constant-power plans / price-order simulation), P2 (even plan, no front-loading).",
+            "Lean 4 proof (plan theorems on five strategy models) + bit-level step correspondence + oracle on real runs of six strategies",
+            "DESIGN.md I.4, §4 C09"),
+    "C10": ("The greedy/balanced step (allocation pass in id order, surplus/V2G pass, stationary-battery pass, "
+            "clamp_power, add_load bookkeeping) is transliterated into Lean on top of the battery model and is bit-identical "
+            "(by value) with the real Greedy.step/Balanced.step on every step of generated scenarios (commands, connector "
+            "loads, station power, vehicle and battery SoCs, exception kind). On that model the documented rule is proved "
+            "clause by clause: offered power per case (greedy / balanced / cheap price), no overcharge without surplus or "
+            "cheap price, id order independent of dict order, remaining steps = ceiling of remaining time, battery policy. "
+            "An independent executable specification of the documented rule (Python, on copies of the real Battery) is run "
+            "on the same world states as oracle.",
+            "Lean 4 proof on a transliterated strategy model + bit-level Float correspondence per step + independent reference spec",
+            "DESIGN.md §4 C10"),
+    "C14": ("The complete Distributed class (constructor, look-ahead, ranking, virtual world per connector, delegation, "
+            "battery support with restored limits, surplus pass) is a Lean model compared bit-for-bit with the real class "
+            "on every step. Theorems: at most number_cs holders, holders keep their point, the closing assertion cannot "
+            "fire; at a depot (opportunity) connector the step IS the balanced (greedy) step model on the virtual world of "
+            "that connector, which contains only that connector's candidates; treating one connector leaves every other "
+            "connector identical. That the result equals a stand-alone balanced / greedy RUN over many steps is decided "
+            "by the implementation-vs-implementation stream (real distributed vs real balanced/greedy on the scenario "
+            "restricted to the connector).",
+            "Lean 4 proof (station count, delegation = sub-strategy step, frame) + bit-level correspondence of the whole class + implementation-vs-implementation runs",
+            "DESIGN.md I.4, §4 C14"),
+    "C15": ("All sentences are Lean theorems about the executable model of the three util.py functions on an integer "
+            "datetime model: window membership <=> first season containing the date has a half-open (midnight-wrapping) "
+            "window of the level; core standing time exact iff-characterisation with error branch, and equality with the "
+            "property's half-open reading except at t = end of a non-wrapping window (decide-checked witness, finding F1); "
+            "series = predicate at start+i*dt with ceil((stop-start)/dt) entries, fuel sufficiency and the non-terminating "
+            "dt <= 0 case; end-of-window scan termination characterised. The model runs against the real functions (incl. "
+            "the JSON reader on generated files and real peak_load_window runs) on ~5 M instants per quick run with an "
+            "independent half-open oracle.",
+            "Lean 4 proof (iff characterisations, induction over the series) + exact differential correspondence, exhaustive per minute",
+            "DESIGN.md §4 C15"),
+    "C16": ("Model side (Lean theorems): the greedy/balanced step is isolated per connector - two worlds that agree on a "
+            "connector's part (its stations, their vehicles, its batteries) give the same loads, station powers, SoCs and "
+            "commands there, hence appending an unrelated connector changes nothing (C16_ruleStep_isolation, "
+            "C16_added_connector; the step model is tied to the real step bit-for-bit inside this check); the event "
+            "buckets, the window predicate (within one season) and the core-standing-time predicate are invariant "
+            "under relabelling by whole weeks (tied by running the model on the relabelled inputs); the loop's "
+            "bookkeeping treats connectors independently. Implementation side: determinism, absence of hidden state and "
+            "the same invariances for ALL eight strategies are decided by paired real runs (fresh/fresh, second run on "
+            "one Scenario object, another strategy first, all timestamps shifted by whole weeks incl. multi-week load "
+            "series, an added unrelated connector) with exact comparison of every output series and of the scenario "
+            "definition. A pure model cannot exhibit hidden Python state, so that part is partial by nature.",
+            "Lean 4 proof (connector isolation of the step model, relabelling invariance, loop frame) + bit-level step tie + paired real runs (exact comparison)",
+            "DESIGN.md §4 C16"),
+    "C17": ("Run shape for every strategy (at most n steps, one record per step, errors in event processing / strategy / "
+            "safety checks end the run with that step and flag it, no error means exactly n steps) is a Lean theorem about "
+            "the loop model (structural recursion, hence terminating); the inner loops of the strategy models carry fuel and "
+            "are proved to end within it (bisections, searches, look-ahead scans of balanced_market, peak_load_window, "
+            "peak_shaving; schedule's under C11_schedule_*; flex_window's bisection under C04_flex_window_bisect_fuel). "
+            "Compared with real runs incl. injected faults; every run ends with report generation (aggregates always, "
+            "result/time-series/SoC files in a quarter of the runs, row counts = reported steps). The wall-clock sentence "
+            "itself is observed by a watchdog (four hangs and one escaping report exception were found and repaired).",
+            "Lean 4 proof (run-loop shape, error latch, fuel theorems for strategy loops) + differential correspondence with fault injection + watchdog",
+            "DESIGN.md I.4, §4 C17"),
+    "C18": ("Feed-in split (three parts >= 0, priority generation -> V2G -> battery, sum = total feed-in; rounded parts "
+            "within half a unit in the last place), one row per reported step with every column the rounding of the named "
+            "series (grid supply = -connector power, station columns and their sum, fixed load, generation, battery power "
+            "and energy, occupied stations), header/row alignment for every component-presence combination, the SoC series "
+            "and the window-column round trip are Lean theorems about the model of report.py; of the aggregates the energy "
+            "sums, window energies, averages, peaks and battery cycles are proved (C18_aggregates_partial: standing-time "
+            "aggregates and flex averages only by correspondence). Real generate_reports output for all 128 output-option "
+            "combinations, completed and aborted runs, is parsed back and compared cell by cell with the model (exact "
+            "rounding on the floats' binary values); post-hoc cost calculation from the written files is compared with the "
+            "in-run result. Findings: price column name mismatch (D12), vehicle cycles (N3).",
+            "Lean 4 proof (split, row/header construction, aggregates partial) + exact cell-level correspondence on written files",
+            "DESIGN.md §4 C18"),
+    "C19": ("Statistics and trip-table generators are modelled as functions of the recorded random draws / rows; "
+            "alternation of departure/arrival in strictly increasing time, consistency of announced times, consumption "
+            "range, desired SoC >= min_soc and >= buffered consumption until the next connection, purity and the while-loop "
+            "fuel are Lean theorems over ordered fields; SimBEV is modelled coarser (one theorem partial). The harness "
+            "records the draws inside the real generators, feeds them to the model and compares the whole scenario; "
+            "reproducibility is a paired real run; 'greedy never negative' is exploration on real generator + real run "
+            "(finding G2).",
+            "Lean 4 proof (induction over draws/rows) + exact differential correspondence on recorded draws + real-run exploration",
+            "DESIGN.md §4 C19"),
+    "C03": ("All sentences are Lean theorems about the executable curve model over any linearly ordered field "
+            "(lookup = lerp, clamped = post*min(pre*curve,L) with well-formedness and no exception, max_power, "
+            "order-independence of the constructor, default discharge curve); the model is run on Rat against the "
+            "real LoadingCurve/VehicleType on exact rationals over an exhaustive grid plus random curves, with an "
+            "independent exact oracle on the implementation's outputs.",
+            "Lean 4 proof over ordered fields + exact (Fraction vs Rat) differential correspondence, exhaustive grid",
+            "DESIGN.md §4 C03"),
+    "C04": ("Lean theorems: (1) run-loop monitor with the strategy's effect as an arbitrary input - a step over the limit is "
+            "never reported as valid, the run stops there and is flagged - for all eight strategies; (2) on the "
+            "statement-by-statement models of all eight strategy classes, the whole step keeps every connector within its "
+            "currently valid limit: greedy/balanced (both sides, with battery support), distributed (limits restored), "
+            "schedule, flex_window (balanced unconditional; greedy; needy in exact arithmetic), peak_shaving, "
+            "peak_load_window, balanced_market; theorems named _partial state exactly what they exclude (V2G for "
+            "balanced_market and the feed-in side of schedule-collective, surplus with batteries for peak_load_window, "
+            "exact-delivery battery contracts). The loop model and every strategy model are compared bit-for-bit with the "
+            "real code on every step of generated real runs inside this check. Limit = min(rating, latest signal) and "
+            "the run-level sentence are additionally decided by an independent oracle on the real outputs; one narrow "
+            "finding is left (peak_load_window at negative SoC). 16 genuine strategy defects were repaired in /repo.",
+            "Lean 4 proof (run-loop monitor + whole-step limit theorems on 8 strategy models) + bit-level Float correspondence of loop and strategy steps on real runs + oracle on real runs",
+            "DESIGN.md I.4, §4 C04"),
+    "C05": ("Lean theorems: station monitor for every strategy; clamp_power laws (non-negative, <= offered, keeps the "
+            "station within its maximum, minimum-power cut-off, monotone); on the strategy models the whole step keeps "
+            "every station within its (concurrency-scaled) maximum in both directions, only stations with a connected "
+            "vehicle carry power and nothing is discharged without V2G (greedy/balanced, flex_window balanced, "
+            "peak_shaving, peak_load_window, balanced_market, schedule individual; collective without V2G). clamp_power "
+            "is compared exactly (exhaustive rational grid), loop and strategy steps bit-for-bit on real runs. The "
+            "vehicle-curve sentence is decided by the oracle from the battery-operation trace: six strategies load a "
+            "battery several times per step (known findings keyed by that mechanism; proved impossible for "
+            "peak_load_window and schedule-individual).",
+            "Lean 4 proof (monitor, clamp laws, whole-step station theorems on the strategy models) + exact/bit-level correspondence + operation-trace oracle on real runs",
+            "DESIGN.md I.4, §4 C05"),
+    "C06": ("Reported connector power = curtailed sum of its loads (every strategy) and the self-discharge step (formula, "
+            "only lowers, never below zero) are Lean theorems; on the strategy models: schedule-individual changes every "
+            "vehicle's energy by exactly command x T x eta and books signed battery power, peak_shaving changes the world "
+            "only through booked charges (look-ahead simulations leave no trace), flex_window's station entries equal the "
+            "station powers. apply_battery_losses is compared exactly on a rational grid, loop and strategy steps "
+            "bit-for-bit on real runs. For the other strategies the per-step energy bookkeeping of vehicles and batteries "
+            "is decided by an oracle that reconstructs the chain of battery operations of the step from the run-time "
+            "trace (every operation: dSoC = P*dt*eta/c resp. /eta; booked station power = signed sum; commands name every "
+            "station that carries power); the battery-level identity it rests on is C01.",
+            "Lean 4 proof (sum identity, losses, booking theorems on three strategy models) + exact/bit-level correspondence + operation-chain oracle on real runs",
+            "DESIGN.md I.4, §4 C06"),
+    "C07": ("Bucket index = max 0 ceil((signal-start)/dt) with 'kept iff < n', the step at which each event takes "
+            "effect (first step at/after its start and not before it was signalled; exactly once), the value in force = "
+            "last applied event in (start, arrival) order, series tail = 0, chronological application of past events at "
+            "step 0, only events with bucket >= n are ignored, and cur_max = min(rating, latest limit) (falsy rating stated "
+            "separately) are Lean theorems by induction over steps with a queue invariant, for the model of events.py and "
+            "Strategy.step. The model runs exactly (Int microseconds, rational values) against the real Events / "
+            "get_event_steps / Strategy.step, world state compared after every step, bounded-exhaustive on a 1/3-step time "
+            "lattice plus random histories and the CSV readers on generated files.",
+            "Lean 4 proof (induction over steps, queue invariant) + exact differential correspondence, bounded-exhaustive",
+            "DESIGN.md §4 C07"),
+    "C08": ("Arrival (SoC + soc_delta once, station/ETD/desired as announced, negative-SoC tracker and ALLOW/RESET "
+            "policy, RuntimeError otherwise), departure (disconnect, ETD cleared, counters with EPS and margin), counters = "
+            "number of such departures over arbitrary histories, event processing never changes the SoC of another "
+            "vehicle (past-departure rule stated as the one exception), and an error in event processing is latched: Lean "
+            "theorems by induction over arbitrary event sequences. Exact correspondence with the real Strategy.step and "
+            "Scenario.run on bounded-exhaustive vehicle-event sequences x option combinations x margins.",
+            "Lean 4 proof (induction over event histories) + exact differential correspondence, bounded-exhaustive",
+            "DESIGN.md §4 C08"),
+    "C09": ("Lean theorems on the strategy models: balanced's plan is a constant power that reaches the desired SoC exactly "
+            "at the announced departure (remaining steps = ceiling of the remaining time); greedy offers min(needed, "
+            "available) clamped; balanced_market plans every step before departure, uses a planned present step "
+            "(regression of repaired defect BM1) and plans in time order when prices never fall; peak_load_window's even "
+            "plan reaches the desired SoC on a constant curve; flex_window offers the whole headroom in a window that does "
+            "not suffice. The run-level guarantee for all six listed strategies is decided on real runs (standing time f x "
+            "full-power time, varying headroom, shared binding connector, V2G vehicle above its desired SoC; SoC read at "
+            "the departure step), with the step models tied bit-for-bit on the same runs. Known findings with their "
+            "mechanism: F2 (varying curves: constant-power plans / price-order simulation), P2 (even plan, no front-loading).",
+            "Lean 4 proof (plan theorems on five strategy models) + bit-level step correspondence + oracle on real runs of six strategies",
+            "DESIGN.md I.4, §4 C09"),
+    "C10": ("The greedy/balanced step (allocation pass in id order, surplus/V2G pass, stationary-battery pass, "
+            "clamp_power, add_load bookkeeping) is transliterated into Lean on top of the battery model and is bit-identical "
+            "(by value) with the real Greedy.step/Balanced.step on every step of generated scenarios (commands, connector "
+            "loads, station power, vehicle and battery SoCs, exception kind). On that model the documented rule is proved "
+            "clause by clause: offered power per case (greedy / balanced / cheap price), no overcharge without surplus or "
+            "cheap price, id order independent of dict order, remaining steps = ceiling of remaining time, battery policy. "
+            "An independent executable specification of the documented rule (Python, on copies of the real Battery) is run "
+            "on the same world states as oracle.",
+            "Lean 4 proof on a transliterated strategy model + bit-level Float correspondence per step + independent reference spec",
+            "DESIGN.md §4 C10"),
+    "C14": ("The complete Distributed class (constructor, look-ahead, ranking, virtual world per connector, delegation, "
+            "battery support with restored limits, surplus pass) is a Lean model compared bit-for-bit with the real class "
+            "on every step. Theorems: at most number_cs holders, holders keep their point, the closing assertion cannot "
+            "fire; at a depot (opportunity) connector the step IS the balanced (greedy) step model on the virtual world of "
+            "that connector, which contains only that connector's candidates; treating one connector leaves every other "
+            "connector identical. That the result equals a stand-alone balanced / greedy RUN over many steps is decided "
+            "by the implementation-vs-implementation stream (real distributed vs real balanced/greedy on the scenario "
+            "restricted to the connector).",
+            "Lean 4 proof (station count, delegation = sub-strategy step, frame) + bit-level correspondence of the whole class + implementation-vs-implementation runs",
+            "DESIGN.md I.4, §4 C14"),
+    "C15": ("All sentences are Lean theorems about the executable model of the three util.py functions on an integer "
+            "datetime model: window membership <=> first season containing the date has a half-open (midnight-wrapping) "
+            "window of the level; core standing time exact iff-characterisation with error branch, and equality with the "
+            "property's half-open reading except at t = end of a non-wrapping window (decide-checked witness, finding F1); "
+            "series = predicate at start+i*dt with ceil((stop-start)/dt) entries, fuel sufficiency and the non-terminating "
+            "dt <= 0 case; end-of-window scan termination characterised. The model runs against the real functions (incl. "
+            "the JSON reader on generated files and real peak_load_window runs) on ~5 M instants per quick run with an "
+            "independent half-open oracle.",
+            "Lean 4 proof (iff characterisations, induction over the series) + exact differential correspondence, exhaustive per minute",
+            "DESIGN.md §4 C15"),
+    "C16": ("Model side (Lean theorems): the greedy/balanced step is isolated per connector - two worlds that agree on a "
+            "connector's part (its stations, their vehicles, its batteries) give the same loads, station powers, SoCs and "
+            "commands there, hence appending an unrelated connector changes nothing (C16_ruleStep_isolation, "
+            "C16_added_connector; the step model is tied to the real step bit-for-bit inside this check); the event "
+            "buckets, the window predicate (within one season) and the core-standing-time predicate are invariant "
+            "under relabelling by whole weeks (tied by running the model on the relabelled inputs); the loop's "
+            "bookkeeping treats connectors independently. Implementation side: determinism, absence of hidden state and "
+            "the same invariances for ALL eight strategies are decided by paired real runs (fresh/fresh, second run on "
+            "one Scenario object, another strategy first, all timestamps shifted by whole weeks incl. multi-week load "
+            "series, an added unrelated connector) with exact comparison of every output series and of the scenario "
+            "definition. A pure model cannot exhibit hidden Python state, so that part is partial by nature.",
+            "Lean 4 proof (connector isolation of the step model, relabelling invariance, loop frame) + bit-level step tie + paired real runs (exact comparison)",
+            "DESIGN.md §4 C16"),
+    "C17": ("Run shape for every strategy (at most n steps, one record per step, errors in event processing / strategy / "
+            "safety checks end the run with that step and flag it, no error means exactly n steps) is a Lean theorem about "
+            "the loop model (structural recursion, hence terminating); compared with real runs incl. injected faults. "
+            "Termination of the strategies' internal loops and of report generation is observed (watchdog, escaped "
+            "exceptions), not proved.",
+            "Lean 4 proof (run-loop shape, error latch) + differential correspondence with fault injection + watchdog",
+            "DESIGN.md §4 C17"),
+    "C11": ("Lean theorems on the strategy models: schedule-individual requests min(clamp(schedule + add), headroom) with "
+            "add >= 0 (whole loop body), its look-ahead, bisection and search end within their fuel; balanced_market sorts "
+            "cheapest-first, does not charge a covered vehicle and charges only in the price group that contains the "
+            "present step; peak_load_window plans nothing inside windows when the outside stage suffices and issues no "
+            "command without plan; flex_window gives exactly 0 kW outside a window when the windows suffice. The run-level "
+            "sentences (no grid energy in discouraged periods, desired SoC still reached, balanced_market never dearer "
+            "than greedy at equal energy) are decided by oracles on real runs (window / price patterns, signals without "
+            "window information, windows from a schedule CSV, 48 h horizon with late price publication, binding "
+            "headroom, late or unannounced departures) with the step models tied bit-for-bit on the same runs.",
+            "Lean 4 proof (plan/floor theorems on four strategy models) + bit-level step correspondence + oracles on real runs",
+            "DESIGN.md I.4, §4 C11"),
+    "C12": ("The model of costs.py (find_prices, commodity, capacity, feed-in, flexible load, calculate_costs for all seven "
+            "schemes, per-year scaling, VAT, round-half-even to cents) refines an independent reference composition "
+            "(C12_refines); tariff class and utilisation bracket, energy-linear parts, which peak each scheme charges, "
+            "VAT/feed-in, annual scaling, invariance under repeating the profile and under halving every timestep, and "
+            "date-freeness are Lean theorems over ordered fields. The real calculate_costs runs on exact rationals (price "
+            "sheet parsed exactly, duck-typed interval) and must equal the model field by field for all schemes x voltage "
+            "levels x fee types x PV brackets incl. exactly constructed boundary inputs; float, CSV and simulate.py streams "
+            "are compared with tolerance; metamorphic oracles re-run the real code on repeated/halved/re-dated profiles.",
+            "Lean 4 proof (refinement to reference spec, invariance theorems) + exact (Fraction vs Rat) differential correspondence",
+            "DESIGN.md §4 C12"),
+    "C13": ("Array invariants of distribute_energy_balanced (schedule+avail.max and schedule-avail.min invariant, avail >= "
+            "0, applied power within the individual flex bounds, hence |schedule| <= limit), the final in-band assertion, "
+            "the charge flag, the written value, and the run-length round trip of the schedule CSV through "
+            "get_schedule_from_csv and the event queue (target, window and every vehicle schedule in force at step t = row "
+            "t, signal <= start) are Lean theorems for all sizes. The flex band itself (a Strategy.step loop on the real "
+            "Battery) is captured from the real run, not modelled. Real generate_schedule runs on generated scenarios and "
+            "grid files (both sign conventions, collective and individual) are compared bit-for-bit per distribute call and "
+            "read back through the real Scenario/Events machinery.",
+            "Lean 4 proof (array invariants, run-length round trip) + Float bit-level correspondence on captured calls + read-back oracle",
+            "DESIGN.md §4 C13"),
+    "C18": ("Feed-in split (three parts >= 0, priority generation -> V2G -> battery, sum = total feed-in; rounded parts "
+            "within half a unit in the last place), one row per reported step with every column the rounding of the named "
+            "series (grid supply = -connector power, station columns and their sum, fixed load, generation, battery power "
+            "and energy, occupied stations), header/row alignment for every component-presence combination, the SoC series "
+            "and the window-column round trip are Lean theorems about the model of report.py; of the aggregates the energy "
+            "sums, window energies, averages, peaks and battery cycles are proved (C18_aggregates_partial: standing-time "
+            "aggregates and flex averages only by correspondence). Real generate_reports output for all 128 output-option "
+            "combinations, completed and aborted runs, is parsed back and compared cell by cell with the model (exact "
+            "rounding on the floats' binary values); post-hoc cost calculation from the written files is compared with the "
+            "in-run result. Findings: price column name mismatch (D12), vehicle cycles (N3).",
+            "Lean 4 proof (split, row/header construction, aggregates partial) + exact cell-level correspondence on written files",
+            "DESIGN.md §4 C18"),
+    "C19": ("Statistics and trip-table generators are modelled as functions of the recorded random draws / rows; "
+            "alternation of departure/arrival in strictly increasing time, consistency of announced times, consumption "
+            "range, desired SoC >= min_soc and >= buffered consumption until the next connection, purity and the while-loop "
+            "fuel are Lean theorems over ordered fields; SimBEV is modelled coarser (one theorem partial). The harness "
+            "records the draws inside the real generators, feeds them to the model and compares the whole scenario; "
+            "reproducibility is a paired real run; 'greedy never negative' is exploration on real generator + real run "
+            "(finding G2).",
+            "Lean 4 proof (induction over draws/rows) + exact differential correspondence on recorded draws + real-run exploration",
+            "DESIGN.md §4 C19"),
+    "C03": ("All sentences are Lean theorems about the executable curve model over any linearly ordered field "
+            "(lookup = lerp, clamped = post*min(pre*curve,L) with well-formedness and no exception, max_power, "
+            "order-independence of the constructor, default discharge curve); the model is run on Rat against the "
+            "real LoadingCurve/VehicleType on exact rationals over an exhaustive grid plus random curves, with an "
+            "independent exact oracle on the implementation's outputs.",
+            "Lean 4 proof over ordered fields + exact (Fraction vs Rat) differential correspondence, exhaustive grid",
+            "DESIGN.md §4 C03"),
+    "C04": ("Lean theorems: (1) run-loop monitor with the strategy's effect as an arbitrary input - a step over the limit is "
+            "never reported as valid, the run stops there and is flagged - for all eight strategies; (2) on the "
+            "statement-by-statement models of all eight strategy classes, the whole step keeps every connector within its "
+            "currently valid limit: greedy/balanced (both sides, with battery support), distributed (limits restored), "
+            "schedule, flex_window (balanced unconditional; greedy; needy in exact arithmetic), peak_shaving, "
+            "peak_load_window, balanced_market; theorems named _partial state exactly what they exclude (V2G for "
+            "balanced_market and the feed-in side of schedule-collective, surplus with batteries for peak_load_window, "
+            "exact-delivery battery contracts). The loop model and every strategy model are compared bit-for-bit with the "
+            "real code on every step of generated real runs inside this check. Limit = min(rating, latest signal) and "
+            "the run-level sentence are additionally decided by an independent oracle on the real outputs; one narrow "
+            "finding is left (peak_load_window at negative SoC). 16 genuine strategy defects were repaired in /repo.",
+            "Lean 4 proof (run-loop monitor + whole-step limit theorems on 8 strategy models) + bit-level Float correspondence of loop and strategy steps on real runs + oracle on real runs",
+            "DESIGN.md I.4, §4 C04"),
+    "C05": ("Lean theorems: station monitor for every strategy; clamp_power laws (non-negative, <= offered, keeps the "
+            "station within its maximum, minimum-power cut-off, monotone); on the strategy models the whole step keeps "
+            "every station within its (concurrency-scaled) maximum in both directions, only stations with a connected "
+            "vehicle carry power and nothing is discharged without V2G (greedy/balanced, flex_window balanced, "
+            "peak_shaving, peak_load_window, balanced_market, schedule individual; collective without V2G). clamp_power "
+            "is compared exactly (exhaustive rational grid), loop and strategy steps bit-for-bit on real runs. The "
+            "vehicle-curve sentence is decided by the oracle from the battery-operation trace: six strategies load a "
+            "battery several times per step (known findings keyed by that mechanism; proved impossible for "
+            "peak_load_window and schedule-individual).",
+            "Lean 4 proof (monitor, clamp laws, whole-step station theorems on the strategy models) + exact/bit-level correspondence + operation-trace oracle on real runs",
+            "DESIGN.md I.4, §4 C05"),
+    "C06": ("Reported connector power = curtailed sum of its loads (every strategy) and the self-discharge step (formula, "
+            "only lowers, never below zero) are Lean theorems; on the strategy models: schedule-individual changes every "
+            "vehicle's energy by exactly command x T x eta and books signed battery power, peak_shaving changes the world "
+            "only through booked charges (look-ahead simulations leave no trace), flex_window's station entries equal the "
+            "station powers. apply_battery_losses is compared exactly on a rational grid, loop and strategy steps "
+            "bit-for-bit on real runs. For the other strategies the per-step energy bookkeeping of vehicles and batteries "
+            "is decided by an oracle that reconstructs the chain of battery operations of the step from the run-time "
+            "trace (every operation: dSoC = P*dt*eta/c resp. /eta; booked station power = signed sum; commands name every "
+            "station that carries power); the battery-level identity it rests on is C01.",
+            "Lean 4 proof (sum identity, losses, booking theorems on three strategy models) + exact/bit-level correspondence + operation-chain oracle on real runs",
+            "DESIGN.md I.4, §4 C06"),
+    "C07": ("Bucket index = max 0 ceil((signal-start)/dt) with 'kept iff < n', the step at which each event takes "
+            "effect (first step at/after its start and not before it was signalled; exactly once), the value in force = "
+            "last applied event in (start, arrival) order, series tail = 0, chronological application of past events at "
+            "step 0, only events with bucket >= n are ignored, and cur_max = min(rating, latest limit) (falsy rating stated "
+            "separately) are Lean theorems by induction over steps with a queue invariant, for the model of events.py and "
+            "Strategy.step. The model runs exactly (Int microseconds, rational values) against the real Events / "
+            "get_event_steps / Strategy.step, world state compared after every step, bounded-exhaustive on a 1/3-step time "
+            "lattice plus random histories and the CSV readers on generated files.",
+            "Lean 4 proof (induction over steps, queue invariant) + exact differential correspondence, bounded-exhaustive",
+            "DESIGN.md §4 C07"),
+    "C08": ("Arrival (SoC + soc_delta once, station/ETD/desired as announced, negative-SoC tracker and ALLOW/RESET "
+            "policy, RuntimeError otherwise), departure (disconnect, ETD cleared, counters with EPS and margin), counters = "
+            "number of such departures over arbitrary histories, event processing never changes the SoC of another "
+            "vehicle (past-departure rule stated as the one exception), and an error in event processing is latched: Lean "
+            "theorems by induction over arbitrary event sequences. Exact correspondence with the real Strategy.step and "
+            "Scenario.run on bounded-exhaustive vehicle-event sequences x option combinations x margins.",
+            "Lean 4 proof (induction over event histories) + exact differential correspondence, bounded-exhaustive",
+            "DESIGN.md §4 C08"),
+    "C09": ("Lean theorems on the strategy models: balanced's plan is a constant power that reaches the desired SoC exactly "
+            "at the announced departure (remaining steps = ceiling of the remaining time); greedy offers min(needed, "
+            "available) clamped; balanced_market plans every step before departure, uses a planned present step "
+            "(regression of repaired defect BM1) and plans in time order when prices never fall; peak_load_window's even "
+            "plan reaches the desired SoC on a constant curve; flex_window offers the whole headroom in a window that does "
+            "not suffice. The run-level guarantee for all six listed strategies is decided on real runs (standing time f x "
+            "full-power time, varying headroom, shared binding connector, V2G vehicle above its desired SoC; SoC read at "
+            "the departure step), with the step models tied bit-for-bit on the same runs. Known findings with their "
+            "mechanism: F2 (varying curves: constant-power plans / price-order simulation), P2 (even plan, no front-loading).",
+            "Lean 4 proof (plan theorems on five strategy models) + bit-level step correspondence + oracle on real runs of six strategies",
+            "DESIGN.md I.4, §4 C09"),
     "C10": ("The greedy/balanced step (allocation pass in id order, surplus/V2G pass, stationary-battery pass, "
             "clamp_power, add_load bookkeeping) is transliterated into Lean on top of the battery model and is bit-identical "
             "(by value) with the real Greedy.step/Balanced.step on every step of generated scenarios (commands, connector "
